@@ -113,6 +113,23 @@ def build(rng, tier):
     for i, q in enumerate(engcheck.make_programs(rng.fork("c20lat"), 3 if tier == "quick" else 8, genf=gen.gen_lat_program, filt=gen.lat_ok)):
         progs[f"ylp{i}"] = q; PROGS[f"ylp{i}"] = q
         mods.append((f"ylp{i}", eng.rs_module(f"ylp{i}", q, macro="ascent_par")))
+    # (1g) NESTED instances: every product in the rules of `tn` is computed by `crate::common::nested_mul` - a second program value constructed and run to completion inside the rule,
+    # on the thread that evaluates it (serial program: the caller's thread; ascent_par!: several rayon workers at the same time, each with its own inner instance)
+    tn = {"rels": [{"arity": 1}, {"arity": 2}, {"arity": 2}],
+          "rules": [{"heads": [(1, [("var", 0), ("mul", ("var", 0), ("var", 0))])], "body": [("cl", 0, [("v", 0)], [])]},
+                    {"heads": [(1, [("add", ("var", 0), 1), ("mul", ("add", ("var", 0), 1), ("add", ("var", 0), 1))])], "body": [("cl", 1, [("v", 0), ("v", 1)], []), ("if", ("lt", ("var", 0), 8))]},
+                    {"heads": [(2, [("var", 0), ("mul", ("var", 1), 2)])], "body": [("cl", 1, [("v", 0), ("v", 1)], [])]}]}
+    nnm = eng.Names(); nnm.nested_mul = True
+    for pid, macro in (("xtn", "ascent"), ("ytn", "ascent_par")):
+        progs[pid] = tn; PROGS[pid] = tn
+        mods.append((pid, eng.rs_module(pid, tn, nm=nnm, macro=macro)))
+        for j in range(4 if tier == "quick" else 12):
+            r2 = rng.fork(f"{pid}n{j}")
+            inp = {0: [(x,) for x in sorted({r2.below(5) for _ in range(r2.range(1, 4))})], 1: [], 2: []}
+            inst = f"{pid}_{j}"
+            a = r2.choice(POOLS)
+            ops = [f"eng new {inst} {pid}" + (f" par {a}" if macro == "ascent_par" else "")] + engcheck.load_ops(inst, inp) + [f"eng run {inst}", f"eng dump {inst}", f"eng run {inst}", f"eng dump {inst}"]
+            cases.append(engcheck.Case(pid, inst, ops, {"inp": inp, "union": inp, "kind": "nested-instances", "abc": (a, a, a)}))
     # (2) several instances, of the same and of different generated types, serial and parallel, running at the same time
     pids = list(progs)
     for g in range(6 if tier == "quick" else 40):
